@@ -5,7 +5,7 @@
    well-formed = NoDup (ids t). *)
 From Coq Require Import List Arith Bool Permutation.
 From PTN Require Import Tree.RTree Tree.RTreeProofs Sched.BUG Sched.BUGProofs Trunc.Select Trunc.SelectProofs.
-From PTN Require TTN.Store TTN.Canon TTN.Inv TTN.CanonTree Contr.Blocks Contr.Closed Evo.BUGStore Evo.BUGStoreProofs.
+From PTN Require TTN.Store TTN.Canon TTN.Inv TTN.CanonTree Contr.Blocks Contr.Closed Evo.BUGStore Evo.BUGStoreProofs Evo.BUGStoreTotal.
 Import ListNotations.
 Local Close Scope Q_scope.
 
@@ -247,6 +247,108 @@ Example C09_example_store :
     end)) = (true, (true, true, [0; 1; 2; 3], true, true)).
 Proof. vm_compute. reflexivity. Qed.
 Print Assumptions C09_example_store.
+
+(* ---- Layer W, acceptance: the model never rejects a well-formed input ------------------------------------------------ *)
+(* (e) for every tree t with unique identifiers, every store with wfb = true whose parent / children structure is t
+   (tree_of: every node of t is in the node dictionary and t lists its recorded children, in any order), root = recorded
+   centre = the root of t, fresh temporaries, and exactly one open leg on every leaf below the root (update_leaf_node uses
+   the QR legs (1,), (0,), `.T` and tensordot(..., ([1],[1])); any number of open legs on the other nodes), the step is
+   accepted - both variants, no rank condition (the re-centring of the copied state is KEEP, as in the repaired code) *)
+Theorem C09_store_step_accepts : forall (fixed : bool) (bcoff : nat) (tmp : Store.id) (t : rtree) (cs : Canon.cstore),
+  Inv.wfb (fst cs) = true ->
+  (forall k, In k (Store.akeys (Store.nodes (fst cs))) -> Store.aget (BUGStore.bcid bcoff k) (Store.nodes (fst cs)) = None) ->
+  Store.aget tmp (Store.nodes (fst cs)) = None ->
+  Store.root (fst cs) = Some (rid t) -> snd cs = Some (rid t) ->
+  BUGStoreProofs.tree_of (Store.nodes (fst cs)) t -> NoDup (ids t) ->
+  (forall k nd, Store.aget k (Store.nodes (fst cs)) = Some nd -> Store.parent nd <> None -> Store.children nd = [] -> Store.nopen nd = 1) ->
+  exists cs', BUGStore.root_update fixed bcoff tmp t cs = Some cs'.
+Proof. exact BUGStoreTotal.root_update_accepts. Qed.
+Print Assumptions C09_store_step_accepts.
+
+(* what tree_of says, spelled out *)
+Theorem C09_store_tree_of_spelled : forall (T0 : list (Store.id * Store.node)) (n : nat) (kids : list rtree),
+  BUGStoreProofs.tree_of T0 (RNode n kids) <->
+  exists nd, Store.aget n T0 = Some nd /\ Permutation (map rid kids) (Store.children nd) /\ Forall (BUGStoreProofs.tree_of T0) kids.
+Proof. exact BUGStoreTotal.tree_of_spelled. Qed.
+Print Assumptions C09_store_tree_of_spelled.
+
+(* (f) unconditional form of (a) and (b): under the hypotheses of (e) the step completes, keeps identifiers, parent pointers
+   and children sets, every temporary is gone, root unchanged, recorded centre = root, canonical at the root (iso_check),
+   the global tables only grew *)
+Theorem C09_store_step_total : forall (fixed : bool) (bcoff : nat) (tmp : Store.id) (t : rtree) (cs : Canon.cstore),
+  Inv.wfb (fst cs) = true ->
+  (forall k, In k (Store.akeys (Store.nodes (fst cs))) -> Store.aget (BUGStore.bcid bcoff k) (Store.nodes (fst cs)) = None) ->
+  Store.aget tmp (Store.nodes (fst cs)) = None ->
+  Store.root (fst cs) = Some (rid t) -> snd cs = Some (rid t) ->
+  BUGStoreProofs.tree_of (Store.nodes (fst cs)) t -> NoDup (ids t) ->
+  (forall k nd, Store.aget k (Store.nodes (fst cs)) = Some nd -> Store.parent nd <> None -> Store.children nd = [] -> Store.nopen nd = 1) ->
+  exists cs', BUGStore.root_update fixed bcoff tmp t cs = Some cs' /\
+    CanonTree.same_tree (Store.nodes (fst cs)) (Store.nodes (fst cs')) /\ CanonTree.tstruct (Store.nodes (fst cs')) /\
+    (forall k, In k (Store.akeys (Store.nodes (fst cs))) -> Store.aget (BUGStore.bcid bcoff k) (Store.nodes (fst cs')) = None) /\
+    Store.aget tmp (Store.nodes (fst cs')) = None /\
+    Store.root (fst cs') = Store.root (fst cs) /\ snd cs' = Some (rid t) /\
+    Canon.iso_check cs' = true /\ BUGStoreProofs.grows (fst cs) (fst cs').
+Proof. exact BUGStoreTotal.root_update_total. Qed.
+Print Assumptions C09_store_step_total.
+
+(* the induction behind (e): update_node on any subtree, under the invariant `ctx` (the caller's state V0 and the state pv of
+   the enclosing call are well-formed over the current tables, have the same tree and the same leg dimensions) is accepted and
+   leaves a basis-change node whose two legs are [the wire of the node's parent leg in pv; a registered wire] *)
+Theorem C09_store_update_node_accepts : forall (fixed : bool) (bcoff : nat) (tmp : Store.id) (t : rtree),
+  BUGStoreTotal.A fixed bcoff tmp t.
+Proof. exact BUGStoreTotal.update_node_some. Qed.
+Print Assumptions C09_store_update_node_accepts.
+
+(* an executable checker of the hypotheses of (e) / (f), and (f) through it *)
+Theorem C09_store_step_checker : forall (bcoff : nat) (tmp : Store.id) (t : rtree) (cs : Canon.cstore),
+  BUGStoreTotal.bug_hypb bcoff tmp t cs = true ->
+  Inv.wfb (fst cs) = true /\
+  (forall k, In k (Store.akeys (Store.nodes (fst cs))) -> Store.aget (BUGStore.bcid bcoff k) (Store.nodes (fst cs)) = None) /\
+  Store.aget tmp (Store.nodes (fst cs)) = None /\
+  Store.root (fst cs) = Some (rid t) /\ snd cs = Some (rid t) /\
+  BUGStoreProofs.tree_of (Store.nodes (fst cs)) t /\ NoDup (ids t) /\
+  (forall k nd, Store.aget k (Store.nodes (fst cs)) = Some nd -> Store.parent nd <> None -> Store.children nd = [] -> Store.nopen nd = 1).
+Proof. exact BUGStoreTotal.bug_hypb_sound. Qed.
+Print Assumptions C09_store_step_checker.
+
+Theorem C09_store_step_total_checked : forall (fixed : bool) (bcoff : nat) (tmp : Store.id) (t : rtree) (cs : Canon.cstore),
+  BUGStoreTotal.bug_hypb bcoff tmp t cs = true ->
+  exists cs', BUGStore.root_update fixed bcoff tmp t cs = Some cs' /\
+    CanonTree.same_tree (Store.nodes (fst cs)) (Store.nodes (fst cs')) /\ Canon.iso_check cs' = true /\ snd cs' = Some (rid t).
+Proof. exact BUGStoreTotal.root_update_total_checked. Qed.
+Print Assumptions C09_store_step_total_checked.
+
+(* the hypotheses are satisfiable: the store of C09_example_store, and a store whose root has two open legs and whose
+   inner node has none; the model's verdict on them (both variants) *)
+Example C09_example_total_hyps :
+  (let s0 := fst (Store.run Store.empty_store
+                    [Store.AddRoot 0 [2; 2; 3]; Store.AddChild 1 [2; 2; 2] 0 0 0; Store.AddChild 2 [2; 3] 0 0 1;
+                     Store.AddChild 3 [2; 2] 0 1 1]) in
+   let s1 := fst (Store.run Store.empty_store
+                    [Store.AddRoot 0 [2; 3; 2]; Store.AddChild 1 [2; 2; 2] 0 0 0; Store.AddChild 2 [2; 2] 0 1 1;
+                     Store.AddChild 3 [2; 3] 0 1 2]) in
+   let t0 := RNode 0 [RNode 2 []; RNode 1 [RNode 3 []]] in
+   let t1 := RNode 0 [RNode 1 [RNode 3 []; RNode 2 []]] in
+   let ok := fun fixed t s => match BUGStore.root_update fixed 30 70 t (s, Some 0) with
+                              | Some cs' => Canon.iso_check cs' && Inv.wfb (fst cs')
+                              | None => false
+                              end in
+   (BUGStoreTotal.bug_hypb 30 70 t0 (s0, Some 0), BUGStoreTotal.bug_hypb 30 70 t1 (s1, Some 0),
+    map (fun kn => Store.nopen (snd kn)) (Store.nodes s1),
+    [ok true t0 s0; ok false t0 s0; ok true t1 s1; ok false t1 s1]))
+  = (true, true, [2; 0; 1; 1], [true; true; true; true]).
+Proof. vm_compute. reflexivity. Qed.
+Print Assumptions C09_example_total_hyps.
+
+(* the leaf condition is needed: a well-formed store whose leaf has two open legs is rejected by both variants *)
+Example C09_example_leaf_two_open_legs_rejected :
+  (let s := fst (Store.run Store.empty_store [Store.AddRoot 0 [2; 2]; Store.AddChild 1 [2; 2; 2] 0 0 0]) in
+   (Inv.wfb s, BUGStoreTotal.bug_hypb 30 70 (RNode 0 [RNode 1 []]) (s, Some 0),
+    BUGStore.root_update true 30 70 (RNode 0 [RNode 1 []]) (s, Some 0),
+    BUGStore.root_update false 30 70 (RNode 0 [RNode 1 []]) (s, Some 0)))
+  = (true, false, None, None).
+Proof. vm_compute. reflexivity. Qed.
+Print Assumptions C09_example_leaf_two_open_legs_rejected.
 
 (* ---- non-vacuity ---------------------------------------------------------------------------------- *)
 Example C09_example_trace :
